@@ -25,6 +25,10 @@ type c10Disp struct {
 
 func (d *c10Disp) Dispatch(ctx context.Context, imp interface{}, req *requestf.RequestPacket, rsp *requestf.ResponsePacket, withContext bool) error {
 	d.calls++
+	// the transport decides whether to reply from the packet type in the context; it may ask
+	// while the implementation is still running (handle timeout), so it must be recorded by now
+	pt, ok := current.GetPacketTypeFromContext(ctx)
+	vapi.Check(ok && pt == req.CPacketType, "packet type is recorded in the context before the implementation runs")
 	rsp.SBuffer = []int8{42}
 	switch d.mode {
 	case 1:
@@ -112,6 +116,35 @@ func VerifC10Invoke() {
 		}
 	}
 	vapi.Reach("c10-invoke")
+}
+
+// VerifC10InvokeTimeout: the handle-timeout reply carries the request's identity.
+func VerifC10InvokeTimeout() {
+	p := NewTarsProtocol(&c10Disp{}, nil, true)
+	p.app = &application{allFilters: &filters{}}
+	version := []int16{1, 3, 5}[vapi.Choice("version", 3)]
+	ptype := int8(vapi.Choice("ptype", 2))
+	req := requestf.RequestPacket{IVersion: version, CPacketType: ptype, IRequestId: vapi.Int32("reqid"), SServantName: "s", SFuncName: "f",
+		Context: map[string]string{}, Status: map[string]string{}}
+	out := p.InvokeTimeout(c10Pack(&req))
+	vapi.Check(len(out) >= 4, "a timeout response is produced")
+	var rid, ret int32
+	var rver int16
+	var rpt int8
+	if version == 3 {
+		var r requestf.RequestPacket
+		vapi.Check(r.ReadFrom(codec.NewReader(out[4:])) == nil, "TUP timeout response decodes as a TUP packet")
+		rid, rver, rpt = r.IRequestId, r.IVersion, r.CPacketType
+	} else {
+		var r requestf.ResponsePacket
+		vapi.Check(r.ReadFrom(codec.NewReader(out[4:])) == nil, "timeout response decodes")
+		rid, rver, rpt, ret = r.IRequestId, r.IVersion, r.CPacketType, r.IRet
+		vapi.Check(ret != 0, "timeout response carries an error code")
+	}
+	vapi.Check(rid == req.IRequestId, "timeout response carries the request id")
+	vapi.Check(rver == version, "timeout response carries the protocol version")
+	vapi.Check(rpt == ptype, "timeout response carries the packet type")
+	vapi.Reach("c10-invoke-timeout")
 }
 
 // VerifC05InvokeShort (C05, datagram clause): a packet shorter than its 4-byte header reaching
